@@ -121,10 +121,8 @@ impl<F: Field> PolynomialCoeffs<F> {
             tmp.coeffs.iter_mut().for_each(|x| *x = -(*x));
             tmp.trim();
             let mut b = &a * &tmp;
-            b.trim();
-            if b.len() > l {
-                b.coeffs.drain(l..);
-            }
+            // Keep exactly `l` coefficients: the block must stay aligned even if its top coefficients are zero.
+            b.coeffs.resize(l, F::ZERO);
             a.coeffs.extend_from_slice(&b.coeffs);
         }
         a.coeffs.drain(n..);
